@@ -634,6 +634,34 @@ def rule_one_decoder(ctx: Ctx) -> RuleResult:
     return rr
 
 
+def rule_str_widths_per_character(ctx: Ctx) -> RuleResult:
+    """For str text every character has its own width (0 for control and combining characters, 2 for wide ones);
+    the column search calc_string_text_pos() adds get_char_width() per character.  calc_width() has to count the
+    same way on its str branch: a shortcut that answers `end_offs - start_offs` there (e.g. for str.isascii() text)
+    counts TAB / ESC / CR as one column each, so width and column search disagree on the same text.  The plain
+    difference is a valid answer only for bytes in the narrow / wide encodings."""
+    from ..rules.exc import ExcEngine
+    from ..rules.util import linear
+
+    p = ctx.p
+    rr = RuleResult("SIB", "C11.18", "calc_width answers with the plain offset difference only for non-str text: on the str branch every result sums get_char_width per character", floor=2)
+    fi = p.func(f"{SU}.calc_width")
+    cfg = cfg_of(fi)
+    prm, start, end = fi.params[0], fi.params[1], fi.params[2]
+    is_str = [t for t in cfg.nodes if t.kind == "test" and isinstance(t.ast, ast.Call) and callee_name(t.ast) == "isinstance" and len(t.ast.args) == 2 and isinstance(t.ast.args[0], ast.Name) and t.ast.args[0].id == prm and ast.unparse(t.ast.args[1]) == "str"]
+    if not is_str:
+        raise AnalysisError("calc_width: the isinstance(text, str) test was not found")
+    for r in [n for n in cfg.nodes if n.kind == "return" and n.ast.value is not None]:
+        on_str = any(r not in ExcEngine._reach_without_edge(cfg, t, "T") for t in is_str)
+        plain = linear(r.ast.value) == {end: 1, start: -1}
+        rr.inst(norm(r.ast, 50), True, {"return": norm(r.ast, 70), "on_str_branch": on_str, "plain_difference": plain})
+        if on_str and plain:
+            rr.add(finding("SIB", fi, r.ast, f"`{norm(r.ast, 50)}` answers for str text with the number of characters: control characters (TAB, ESC, CR - width 0 in urwid's table) and wide characters are miscounted, while calc_text_pos() still adds get_char_width() per character - the layout's two helpers disagree (spurious blank rows, IndexError in the space wrap)", construct="str width taken as character count"))
+        if on_str and not plain and not any(isinstance(c, ast.Call) and callee_name(c) in ("get_char_width", "get_width") for c in ast.walk(r.ast.value)):
+            rr.add(finding("SIB", fi, r.ast, f"`{norm(r.ast, 50)}` answers for str text without consulting get_char_width()", construct="str width not per character"))
+    return rr
+
+
 def rule_dbe_consulted(ctx: Ctx) -> RuleResult:
     """In the double-byte encodings the second byte of a character can be an ASCII-range value (Big5 / GBK / UHC trail
     bytes 0x40..0x7E): whether a byte is a character of its own is only known to within_double_byte().  In the
@@ -683,12 +711,14 @@ def run(ctx: Ctx):
         rule_memo_globals(ctx),
         rule_dbe_consulted(ctx),
         rule_one_decoder(ctx),
+        rule_str_widths_per_character(ctx),
     ]
 
 
 _S = "urwid/str_util.py"
 _U = "urwid/util.py"
 MUTANTS = [
+    Mut("calc-width-ascii-str-shortcut", "urwid/str_util.py", "calc_width", "    if isinstance(text, str):\n        return sum(", "    if isinstance(text, str):\n        if text.isascii():\n            return end_offs - start_offs\n        return sum(", "SIB|str_util.calc_width|str width taken as character count"),
     Mut("calc-width-lenient-codec", "urwid/str_util.py", "calc_width", '.decode("utf-8"))', '.decode("utf-8", "ignore"))', "SIB|str_util.calc_width|codec error policy"),
     Mut("calc-width-fallback-counts-bytes", "urwid/str_util.py", "calc_width", "        i = start_offs\n        sc = 0\n        while i < end_offs:\n            o, i = decode_one(text, i)\n            w = get_width(o)\n            sc += w\n        return sc\n", "        return end_offs - start_offs\n", "SIB|str_util.calc_width|calc_width fallback without decode_one"),
     Mut("prev-char-ascii-shortcut", _S, "move_prev_char", "    if _byte_encoding == \"utf8\":\n        o = end_offs - 1", "    if text[end_offs - 1] < 0x80:\n        return end_offs - 1\n    if _byte_encoding == \"utf8\":\n        o = end_offs - 1", "PASS|str_util.move_prev_char"),
